@@ -52,6 +52,7 @@ double GetNumDens(double *) { return 1.0; }
 
 static const char *RECORD = "naunet_error_record.txt";
 static long g_cur_run = -1;
+static long g_cur_run_prev = -1;
 static int g_cur_solve = -1;
 
 static void on_alarm(int) {
@@ -62,7 +63,7 @@ static void on_alarm(int) {
     _exit(3);
 }
 
-static std::string read_record_and_truncate() {
+static std::string read_whole_record() {
     fflush(NULL);
     std::string s;
     FILE *f = fopen(RECORD, "r");
@@ -71,11 +72,19 @@ static std::string read_record_and_truncate() {
     size_t n;
     while ((n = fread(buf, 1, sizeof buf, f)) > 0) s.append(buf, n);
     fclose(f);
-    if (!s.empty()) {
-        if (truncate(RECORD, 0) != 0) {
-        }
-    }
     return s;
+}
+
+// The record accumulates (naunet opens it in append mode); what a call wrote is what was added
+// since the last look.  The driver itself only empties the file between runs when no object is
+// alive and nothing written earlier still has to be found there (see verify_pending).
+static long g_rec_off = 0;
+static std::string read_record_new() {
+    std::string s = read_whole_record();
+    if ((long)s.size() < g_rec_off) g_rec_off = 0;  // replaced or cut by the code under test
+    std::string out = s.substr((size_t)g_rec_off);
+    g_rec_off = (long)s.size();
+    return out;
 }
 
 // The property only says "with the initial state logged"; the layout of the record is naunet's
@@ -114,6 +123,40 @@ static int check_record(const std::string &rec, const std::vector<double> &y0, i
         }
     }
     return 1;
+}
+
+// "with the initial state logged": a record that the library itself destroys later (a later
+// Finalize, another object) is not a log.  Every failing Solve's initial state must still be in
+// the file at the next object boundaries.
+struct PendingRec {
+    long run;
+    int solve;
+    std::vector<double> y0;
+    int age;
+};
+static std::vector<PendingRec> g_pending;
+static void verify_pending(long culprit_run, int culprit_solve, bool may_truncate) {
+    std::string s = read_whole_record();
+    for (size_t i = 0; i < g_pending.size();) {
+        int note = 0;
+        if (!check_record(s, g_pending[i].y0, &note)) {
+            printf("lost %ld %d %ld %d\n", culprit_run, culprit_solve, g_pending[i].run, g_pending[i].solve);
+            g_pending.erase(g_pending.begin() + (long)i);
+            continue;
+        }
+        if (++g_pending[i].age >= 3) {
+            g_pending.erase(g_pending.begin() + (long)i);
+            continue;
+        }
+        i++;
+    }
+    if ((long)s.size() < g_rec_off) g_rec_off = 0;
+    if (may_truncate && (g_pending.empty() || s.size() > (1u << 21))) {
+        if (truncate(RECORD, 0) != 0) {
+        }
+        g_rec_off = 0;
+        g_pending.clear();
+    }
 }
 
 static bool next_tok(char *&save, const char *&tok) {
@@ -177,8 +220,9 @@ int main(int argc, char **argv) {
                 }
                 naunet = NULL;
                 data = NULL;
-                read_record_and_truncate();
             }
+            if (g_cur_run_prev >= 0) verify_pending(g_cur_run_prev, solve_idx > 0 ? solve_idx - 1 : 0, older == NULL);
+            g_cur_run_prev = g_cur_run;
             solve_idx = 0;
             naunet = new Naunet();
             data = new NaunetData[nsys > 0 ? nsys : 1]();
@@ -295,7 +339,7 @@ int main(int argc, char **argv) {
             int rrc = naunet->Reset(nsys, 1e-20, 1e-5, mxsteps);
             if (rrc != NAUNET_SUCCESS) printf("resetfail %ld %d\n", g_cur_run, rrc);
         }
-        read_record_and_truncate();
+        read_record_new();
 
         std::vector<double> ab(y0);
         int rc = -99, thrown = 0, other_exc = 0;
@@ -321,9 +365,17 @@ int main(int argc, char **argv) {
             }
         }
         alarm(alarm_s);
-        std::string rec = read_record_and_truncate();
+        std::string rec = read_record_new();
         int note = 0, logged = -1;
         if (rc == NAUNET_FAIL) logged = check_record(rec, y0, &note);
+        if (rc == NAUNET_FAIL && logged == 1) {
+            PendingRec pr;
+            pr.run = g_cur_run;
+            pr.solve = solve_idx;
+            pr.y0 = y0;
+            pr.age = 0;
+            g_pending.push_back(pr);
+        }
         double mn = INFINITY, mx = -INFINITY;
         for (size_t i = 0; i < ab.size(); i++) {
             double a = ab[i] - y0[i];
@@ -362,6 +414,7 @@ int main(int argc, char **argv) {
         delete naunet;
         delete[] data;
     }
+    if (g_cur_run >= 0) verify_pending(g_cur_run, solve_idx > 0 ? solve_idx - 1 : 0, true);
     free(line);
     printf("done\n");
     return 0;
